@@ -116,7 +116,9 @@ func (s *Session) havocAll(st *State) {
 	s.nfresh++
 	st.Epoch = s.nfresh + 1000
 	st.Heap = map[string]T{}
+	oldTop := st.Top
 	st.Top = s.fresh("top", SInt)
+	s.assume(Ge(st.Top, oldTop))
 }
 
 func (s *Session) havocHeap(st *State, name, sort string) {
